@@ -92,7 +92,7 @@ func instantiateContainers(h []contOp, kind string, variant int) (inputs []strin
 				if n == 0 {
 					src = "a = []"
 				}
-				if variant > 0 {
+				if variant > 0 && n > 0 { // (an empty initial value: only the plain form, pack() and rest([x]) are not [])
 					switch variant % 6 {
 					case 1:
 						src = "a = [" + strings.Join(es, ", ") + "]"
@@ -295,7 +295,7 @@ func checkC06(c *Ctx) {
 			}
 			variant := 0
 			if n%2 == 1 { // every other behaviour with other source forms of its initial value and copies
-				variant = 1 + (n/2+int(c.Seed))%30
+				variant = 1 + int((uint32(n)*2654435761+uint32(c.Seed)*40503)>>9)%30 // hashed: the stride must not alias with the variants
 			}
 			inputs, ok := instantiateContainers(g.H, sp.kind, variant)
 			if !ok {
